@@ -32,6 +32,12 @@ func init() {
 		p.P["pre"] = r.Range(1, 12)
 		p.P["long"] = r.Pick0(0, 0, 0, 0, 1, 2) // 1 = kilobyte tokens that differ only at their beginning, 2 = a long list of groups
 		p.P["mix"] = r.Intn(4)                  // 0 = callers use different endpoints of the wrapper for the same token at once
+		// with mix==0: every caller's endpoint drawn on its own (base-4 digits), so that the same endpoint recurs for one
+		// token around a call of another endpoint for it (validate, revoke, validate); 0 = the fixed rotation
+		p.P["mseq"] = r.Pick0(0, r.Range(1, 4095))
+		if p.P["mseq"] != 0 {
+			p.P["n"], p.P["mix"], p.P["k"] = r.Range(3, 6), 0, r.Pick0(1, 1, 2)
+		}
 		p.Choices = drawChoices(r, r.Range(10, 80))
 		return p
 	}
@@ -482,6 +488,9 @@ func runC16Proxy(p *Plan, res *world.Result) {
 		method := method0
 		if p.P["mix"] == 0 && method0 != "UserGroups" {
 			method = []string{"ValidateSessionState", "RefreshSession"}[(p.P["method"]+i)%2]
+			if p.P["mseq"] != 0 {
+				method = []string{"ValidateSessionState", "RefreshSession"}[(p.P["mseq"]>>uint(i))&1]
+			}
 		}
 		c := &call{Caller: i, Method: method, Invoke: -1, Return: -1, Sess: sessionFor(sp)}
 		switch method {
@@ -628,6 +637,9 @@ func runC16Auth(p *Plan, res *world.Result) {
 		if p.P["mix"] == 0 && method0 != "ValidateGroupMembership" {
 			// the four endpoints that are asked with a token
 			method = []string{"ValidateSessionState", "Revoke", "RefreshSessionIfNeeded", "RefreshAccessToken"}[(p.P["method"]+i*(1+p.P["k"]%2))%4]
+			if p.P["mseq"] != 0 {
+				method = []string{"ValidateSessionState", "Revoke", "RefreshSessionIfNeeded", "RefreshAccessToken"}[(p.P["mseq"]>>uint(2*i))&3]
+			}
 		}
 		c := &call{Caller: i, Method: method, Invoke: -1, Return: -1, Sess: sessionFor(sp)}
 		switch method {
